@@ -577,11 +577,20 @@ func (k *kase) genStep(i int) *step {
 	switch st.op {
 	case "Append", "Replace":
 		if st.sliceLvl {
-			for _, ov := range st.owners {
+			for idx, ov := range st.owners {
 				av := map[string]bool{}
 				for t := range avoid {
 					if !k.m.links[ov.ok][t] {
 						av[t] = true
+					}
+				}
+				if st.op == "Append" && s.store == fkTarget && !s.single {
+					// a later owner of the same call would save its whole in-memory field again
+					// (documented Append behaviour) before it could be reloaded: not generated
+					for _, later := range st.owners[idx+1:] {
+						for t := range later.mem {
+							av[t] = true
+						}
 					}
 				}
 				var ts []*targ
@@ -633,12 +642,15 @@ func (k *kase) genStep(i int) *step {
 		// any owner of the call may hold the named targets
 		o := core.Pick(r, st.owners).ok
 		n := core.Pick(r, []int{0, 1, 1, 1, 2, 2, 3})
-		if n == 0 && (s.composite || !r.Chance(1, 4)) {
-			n = 1 // composite keys: Delete() without targets renders "(a,b) IN (NULL)", not generated
+		if n == 0 && !r.Chance(1, 4) {
+			n = 1
 		}
 		ts := k.pickTargets(o, n, true, false, nil, false)
-		if len(ts) == 0 && s.composite {
-			return nil
+		if len(ts) == 0 {
+			k.c.Inc("delete_without_targets")
+			if s.composite {
+				k.c.Inc("delete_without_targets_composite_keys")
+			}
 		}
 		st.args = k.splitArgs(ts, true)
 	}
@@ -966,10 +978,12 @@ func (k *kase) run() {
 				ov.foreign = false // Append on has-one / belongs-to sets the only link
 			}
 		}
+		robbed := map[*ownerVal]bool{}
 		for _, stl := range eff.steals {
 			for _, ov := range k.vals {
 				if ov.ok == stl[0] {
-					ov.foreign = true
+					ov.foreign = true // for the comparison after this step; refreshed below
+					robbed[ov] = true
 				}
 			}
 		}
@@ -998,6 +1012,13 @@ func (k *kase) run() {
 			fail(k.sig(st, ps, snap, true), st, ps)
 			return
 		}
+		// an owner value that lost a target to another owner is stale by the caller's own
+		// doing: it is reloaded from the database (relation loaded) before it is used again
+		for _, ov := range k.vals {
+			if robbed[ov] {
+				k.refresh(ov)
+			}
+		}
 		cls := map[string]bool{}
 		for _, t := range st.flat() {
 			cls[t.class] = true
@@ -1014,10 +1035,46 @@ func (k *kase) run() {
 	}
 }
 
+// refresh replaces an owner value by the record as stored now: scalar columns and the
+// relation field are read with raw SQL (what db.Preload(field).First(&value) would load).
+func (k *kase) refresh(ov *ownerVal) {
+	s := k.spec
+	stored := s.readLinks()[ov.ok]
+	recs := s.readRecs()
+	var ts []targ
+	ov.mem = map[string]bool{}
+	for _, t := range sortedKeys(intSet(stored)) {
+		if r, ok := recs[t]; ok && !r.soft {
+			ts = append(ts, targ{key: t, name: r.name})
+			ov.mem[t] = true
+		}
+	}
+	v := ov.ptr.Elem()
+	v.Set(reflect.Zero(s.ownerT))
+	var fk *int64
+	if s.store == fkOwner {
+		fk = s.ownerFK(ov.ok)
+	}
+	s.setOwner(v, ov.ok, "o-"+ov.ok, fk)
+	s.setRelation(v, ov.ok, ts)
+	ov.foreign = false
+	k.c.Inc("owner_values_refreshed_after_takeover")
+	line := fmt.Sprintf("// %s reloaded from the database after another owner took over one of its targets: db.Preload(%q).First(%s) -> %s %v", ov.lit, s.field, ov.lit, s.field, sortedKeys(ov.mem))
+	k.calls = append(k.calls, line)
+	k.c.Logf("  %s", line)
+}
+
+func intSet(m map[string]int) map[string]bool {
+	out := map[string]bool{}
+	for k := range m {
+		out[k] = true
+	}
+	return out
+}
+
 type snapshot struct {
 	links map[string]map[string]bool
 	mem   map[string]map[string]bool // owner key -> keys held by its operated value
-	phys  map[string]dbRec           // rows of the target table before the call
 }
 
 func cloneSets(m map[string]map[string]bool) map[string]map[string]bool {
@@ -1033,9 +1090,6 @@ func cloneSets(m map[string]map[string]bool) map[string]map[string]bool {
 
 func (k *kase) snapshot() *snapshot {
 	sn := &snapshot{links: cloneSets(k.m.links), mem: map[string]map[string]bool{}}
-	if k.spec.soft {
-		sn.phys = k.spec.readRecs()
-	}
 	for _, ov := range k.vals {
 		sn.mem[ov.ok] = map[string]bool{}
 		for t := range ov.mem {
@@ -1102,22 +1156,6 @@ func (k *kase) sig(st *step, ps []problem, sn *snapshot, applied bool) string {
 		return true
 	}
 	stored := s.readLinks()
-	if applied && s.store == fkTarget && !s.single && st.op == "Append" {
-		// counterfactual: every Append saves the whole in-memory field of the value again,
-		// so links another owner took over in the meantime come back
-		alt := &model{spec: s, links: cloneSets(sn.links)}
-		for i, ov := range st.owners {
-			for _, t := range append(sortedKeys(sn.mem[ov.ok]), argKeys(st, i)...) {
-				if r, ok := sn.phys[t]; ok && r.soft {
-					continue // a soft-deleted row gets its key column back but stays invisible
-				}
-				alt.link(ov.ok, t, &effect{})
-			}
-		}
-		if sameLinks(alt.links, stored) && !sameLinks(k.m.links, stored) {
-			return "stale-value-resave"
-		}
-	}
 	if applied && s.store == joinRows && st.op == "Replace" && st.sliceLvl {
 		// counterfactual: the clean-up keeps every join row whose target occurs in ANY argument
 		all := map[string]bool{}
@@ -1208,10 +1246,13 @@ var Engine = &core.Engine{
 		"has-one / belongs-to Append and Replace get exactly one target (&T) per owner; Append/Replace on a slice of owners get exactly one argument per owner (association.go: ErrInvalidValueOfLength otherwise)",
 		"target arguments are addressable (&T, slices); a plain struct value T is only passed to Delete",
 		"brand-new records are never passed twice in one call and never passed to Delete",
-		"has-one / has-many: appending a target that is linked to another owner moves the link (the key column holds one owner); the robbed owner's value then counts as not having received every operation until its next Replace/Clear, and so does a value whose links were seeded with raw SQL",
+		"has-one / has-many: appending a target that is linked to another owner moves the link (the key column holds one owner); the owner value that lost the target is stale by the caller's own doing (Append re-saves a value's whole relation field, documented behaviour), so it is reloaded from the database (scalar columns + relation field, as db.Preload(field).First(&value)) right after that step and before it is used again; takeovers are counted",
+		"a slice-level Append never gives an owner a target that a LATER owner of the same call holds in memory (the later owner would re-save it inside the same call, before any reload is possible)",
+		"a value whose links were seeded with raw SQL (not loaded into its relation field) counts as not having received every operation until its next Replace/Clear",
 		"belongs-to cases with Unscoped steps never link one target to two owners (deleting a shared target would leave a dangling key the statement says nothing about)",
 		"an Unscoped Append/Replace on a slice of has-one/has-many owners never moves a target between two owners of that call",
 		"Count on a slice of owners is accepted between the number of distinct linked records and the number of links",
+		"Delete() without targets is generated for every kind (composite keys too, since the empty multi-column IN renders a row of NULLs) and must change nothing",
 		"many-to-many: Unscoped removes join rows only (targets survive), as scoped",
 		"soft-delete targets: a record deleted through Unscoped association mode must be soft-deleted or gone, with db.Unscoped() gone; whether older soft-deleted rows are purged later is not checked",
 		"only existence of associated records is demanded, not their other columns",
